@@ -5,9 +5,10 @@ ENTRY = dict(
         title="Cutting gates and reconstructing reproduces the uncut expectation values",
         prop_file="Properties/C01.v",
         corr_files=["Corr/C01Corr.v"],
-        theorems=["c01_all_maps", "c01_support_sum", "c01_multilinear", "c01_c05_vocabulary", "c01_roundtrip_partial", "c01_roundtrip_generated_partial", "c01_expansion",
+        theorems=["c01_all_maps", "c01_support_sum", "c01_multilinear", "c01_c05_vocabulary", "c01_roundtrip_partial", "c01_roundtrip_generated_partial", "c01_generated_exact_results", "c01_generated_roundtrip_partial",
+                  "c01_generated_layout", "c01_projection_lists", "c01_generated_roundtrip_dict_partial", "c01_generated_roundtrip_single_partial", "c01_expansion",
                   "c01_listed_samples", "c01_roundtrip_public_partial", "c01_unseparated_partial", "c01_identity_projection", "c01_subcutoff",
-                  "c01_weights_from_c04", "c01_idle_refusal", "c01_idle_rule", "c01_checker_sound", "c01_hyps_satisfiable", "c01_ex_roundtrip",
+                  "c01_weights_from_c04", "c01_idle_refusal", "c01_idle_rule", "c01_checker_sound", "c01_hyps_satisfiable", "c01_ex_roundtrip", "c01_ex_generated",
                   "c01_facts"],
         allowed_axioms=[],
         facts=["nonzero_atol", "c05_formulas", "c10_idle_group_removed"],
@@ -41,7 +42,16 @@ ENTRY = dict(
                    "above the cut-off, coefficient = product within 1e-12*kappa, #circuits = #samples x #groups, projections "
                    "consistent, lookup shapes), the refusal rule is evaluated by the C10 model, and the returned numbers are compared "
                    "(1e-7) with an independent state-vector simulation of the uncut circuit.",
-        level_note=STD_NOTE + "No axioms. P1-P3 are HYPOTHESES of c01_roundtrip_partial / c01_unseparated_partial / c01_subcutoff (n-qubit Hilbert-space "
+        level_note=STD_NOTE + "No axioms. THE WHOLE CHAIN generate (C05 model) ; exact sampler `run` ; reconstruct (C06 model) is covered by "
+                   "c01_generated_roundtrip_partial / _dict_partial / _single_partial: there the 'exact results' equation, the projection "
+                   "lists (label suffixes of the one-qubit placeholders in circuit order, resp. identity), the result counts and the "
+                   "coefficient-list shape are THEOREMS about the models (c01_generated_exact_results, c01_projection_lists, C05 core), "
+                   "no longer hypotheses; the partition values E are defined from the generated circuits (decode of run(optimise(build1 "
+                   ".. pids g))). Still assumed there: P1, P2+P3 (physics of those circuits), exact_weights (C04 under no_subcutoff_map), "
+                   "and that reconstruction's and generation's views of each ObservableCollection have the same number of groups with "
+                   "well-formed lookups (C11). Not derived: that partition_problem's subcircuits carry each cut id on exactly two "
+                   "placeholders (C10's c10_cuts gives existence of the two halves; uniqueness is only checked by the correspondence). "
+                   "P1-P3 are HYPOTHESES of c01_roundtrip_partial / c01_unseparated_partial / c01_subcutoff (n-qubit Hilbert-space "
                    "semantics is not formalised): what is proved is the algebra connecting the modelled bookkeeping to the uncut value "
                    "given those postulates; that the real subexperiments satisfy them is tested numerically on every run, not proved. "
                    "The numeric comparison is made by the harness and enters the Coq case as one boolean; the property-level oracle "
